@@ -34,6 +34,18 @@ def opFDec (args : List Sexp) : String :=
     | none => "bad-op"
   | _ => "bad-op"
 
+/-- `f.decenc`: decode, then encode the decoded double -/
+def opFDecEnc (args : List Sexp) : String :=
+  match args with
+  | [a] => match f64? a with
+    | some g =>
+      let d := GdsFloat.decodeBits g
+      match GdsFloat.encodeBits d with
+      | some g2 => s!"ok {ofF64 d} {ofF64 g2}"
+      | none => s!"ok {ofF64 d} err"
+    | none => "bad-op"
+  | _ => "bad-op"
+
 def natList? : Sexp → Option (List Nat)
   | .list xs => xs.mapM nat?
   | _ => none
@@ -144,6 +156,7 @@ def dispatch (op : String) (args : List Sexp) : String :=
   match op with
   | "f.enc" => opFEnc args
   | "f.dec" => opFDec args
+  | "f.decenc" => opFDecEnc args
   | "gds.write" => opGdsWrite args
   | "gds.read" => opGdsRead args
   | "gds.c03" => opGdsRead (args.take 1)
